@@ -151,6 +151,22 @@ Example C06_restore_refuted :
   fst (rollback w3 1) = RbOk /\ files wS pa = Some (FBytes 1) /\ files w4 pa = None.
 Proof. vm_compute. repeat split; reflexivity. Qed.
 
+(* a second refuting shape (class K6d), found by the thorough tier: S is deployed while a root is switched off, so a
+   file an earlier deployment wrote there stays on disk UNMANAGED; the head manages it again; rollback to S deletes it
+   (it removes what the head lists beyond S) although it was there right after S *)
+Example C06_restore_refuted_root_off :
+  let rc := Build_root (s "codex") [s "h"; s "codex"] false in
+  let rp := Build_root (s "codex") [s "h"; s "codex"; s "prompts"] true in
+  let pa := [s "h"; s "codex"; s "AGENTS.md"] in let pb := [s "h"; s "codex"; s "prompts"; s "b.md"] in
+  let w0 := Build_world (fun _ => None) [] in
+  let w1 := snd (snd (deploy_cmd SJsonYes true false None w0 [rc; rp] [Build_dfile (s "codex") pa 1 []; Build_dfile (s "codex") pb 2 []])) in
+  (* S: the home root is switched off; only the prompt changes *)
+  let wS := snd (snd (deploy_cmd SJsonYes true false None w1 [rp] [Build_dfile (s "codex") pb 3 []])) in
+  let w3 := snd (snd (deploy_cmd SJsonYes true false None wS [rc; rp] [Build_dfile (s "codex") pa 4 []; Build_dfile (s "codex") pb 3 []])) in
+  let w4 := snd (rollback w3 1) in
+  fst (rollback w3 1) = RbOk /\ files wS pa = Some (FBytes 1) /\ files w3 pa = Some (FBytes 4) /\ files w4 pa = None.
+Proof. vm_compute. repeat split; reflexivity. Qed.
+
 (* non-vacuity of C06_restore_partial: two full deploys, a user edit, rollback to the first *)
 Example C06_nonvacuous :
   let rc := Build_root (s "codex") [s "h"; s "codex"] false in
